@@ -56,6 +56,15 @@ def models(tier):
     cfg["apps"][0]["peers"] = [0, 1]
     out.append(monitors.ScenarioModel("other-peer-on-a-reused-descriptor", cfg, alpha1, MONS, max_socks=2,
                                       prelude=[("accept",), ("m", 0, "cer_p0"), ("tick", 1), ("eof", 0), ("accept",), ("m", 1, "cer_p1")], deviations=dev1))
+    # two connections: traffic for the other connection (also more than one recv() worth) reaches the node in the very instant in
+    # which this connection's idle timeout or DWA timeout expires, so the timers are looked at in consecutive passes of the I/O loop
+    cfg = base(3, 2, 1)
+    cfg["peers"].append({"name": "peer2.example.org"})
+    cfg["apps"][0]["peers"] = [0, 1]
+    alpha2 = [("tick", 1), ("mt", 1, "req_big", 1), ("mt", 1, "dwr", 1), ("m", 1, "dwr"), ("m", 0, "dwa"), ("m", 1, "dwa"), ("m", 0, "dwr")]
+    dev2 = {e: (0 if e == ("tick", 1) else 1) for e in alpha2}
+    out.append(monitors.ScenarioModel("two-connections-traffic-at-the-expiry-instant", cfg, alpha2, MONS, max_socks=2,
+                                      prelude=[("accept",), ("m", 0, "cer_p0"), ("accept",), ("m", 1, "cer_p1")], deviations=dev2))
     # a second deterministic scheduling policy (the I/O thread runs only when nothing else can): thorough tier
     if tier == "thorough":
         out = monitors.with_io_last(out)
